@@ -6,6 +6,8 @@
                trigger  "r:<int>" relative | "a:<int>" absolute aware | "f:<int>" absolute floating | "-"
                related  "-" absent | "=" code points of the RELATED parameter value
     alarms   alarm { "|" alarm }    (empty field = no alarm)
+    tag      last argument of every op: free text naming provider and build route (ignored; keeps the
+             cases of different routes apart); `al_skip` answers `unmodelled` whatever its arguments
     parent   dtstamp ";" lastack ";" snoozetime ";" othermoz(0|1)
     localtz  "-" not set | "L" { "," wall ">" instant }   the provider's localize, tabulated by the harness
   Results:
@@ -127,7 +129,7 @@ def encAlarmTime (as : List VAlarm) (x : AlarmTime) : String :=
 def withState (args : List String)
     (k : (Int → Int) → State → List VAlarm → String) : Option String :=
   match args with
-  | [p, st, en, as, ltz] =>
+  | [p, st, en, as, ltz, _tag] =>
     match decParent p, decTrigO st, decTrigO en, decAlarms as, decLocal ltz with
     | some p, some st, some en, some as, some ltz =>
       match ltz with
@@ -152,18 +154,19 @@ open AlarmP
 
 def handleAlarm (op : String) (args : List String) : Option String :=
   match op, args with
-  | "al_add", [t, td] =>
+  | "al_skip", _ => some "unmodelled"
+  | "al_add", [t, td, _tag] =>
     match decTrigO t, td.toInt? with
     | some (some t), some td => some (encTrig (add t td))
     | _, _ => some "bad-args"
-  | "al_triggers", [a] =>
+  | "al_triggers", [a, _tag] =>
     match decAlarm a with
     | some a =>
       let tr := a.triggers
       some ("s:" ++ ",".intercalate (tr.start.map toString) ++ ";e:" ++ ",".intercalate (tr.end_.map toString) ++
         ";a:" ++ ",".intercalate (tr.absolute.map encTrig))
     | none => some "bad-args"
-  | "at_state", [t, ka, kc, sn] =>
+  | "at_state", [t, ka, kc, sn, _tag] =>
     match decTrigO t, decOptInt ka, decOptInt kc, decOptInt sn with
     | some (some t), some ka, some kc, some sn =>
       let x : AlarmTime := { alarm := { acknowledged := ka }, trig := t, lastAck := kc, snooze := sn }
